@@ -143,18 +143,24 @@ func underPtr(s *gen.TypeSpec) *gen.TypeSpec {
 	return s
 }
 
+// namedByTag: the field carries a tag with a valid name (an embedded struct so tagged is an ordinary member).
+func namedByTag(f *gen.FieldSpec) bool {
+	if !f.HasTag || f.Tag == "-" {
+		return false
+	}
+	n, _ := gen.TagName(f.Tag)
+	return n != ""
+}
+
 // jsonName returns the member name encoding/json would use for a field ("" = not encoded by name).
 func jsonName(f *gen.FieldSpec) (name string, opts string) {
 	if f.HasTag {
 		if f.Tag == "-" {
 			return "", ""
 		}
-		name = f.Tag
-		if i := strings.IndexByte(f.Tag, ','); i >= 0 {
-			name, opts = f.Tag[:i], f.Tag[i:]
-		}
+		name, opts = gen.TagName(f.Tag)
 	}
-	if name == "" || strings.ContainsAny(name, "\\\"") {
+	if name == "" {
 		name = f.Name
 	}
 	return name, opts
@@ -166,7 +172,7 @@ func dedupEmbedded(s *gen.TypeSpec, seen map[string]bool, counter *int) {
 	for i := range s.Fields {
 		f := &s.Fields[i]
 		u := underPtr(f.T)
-		if f.Embedded && u.K == "struct" && !(f.HasTag && f.Tag != "" && !strings.HasPrefix(f.Tag, ",")) {
+		if f.Embedded && u.K == "struct" && !namedByTag(f) {
 			dedupEmbedded(u, seen, counter)
 			continue
 		}
